@@ -863,10 +863,21 @@ func (m *Mint) MeltTokens(ctx context.Context, meltTokensRequest nut05.PostMeltB
 	mintQuote, err := m.db.GetMintQuoteByPaymentHash(meltQuote.PaymentHash)
 	if err == nil {
 		m.logDebugf("quotes '%v' and '%v' have same invoice so settling them internally", meltQuote.Id, mintQuote.Id)
-		meltQuote, err = m.settleQuotesInternally(mintQuote, meltQuote)
+		settledQuote, err := m.settleQuotesInternally(mintQuote, meltQuote)
 		if err != nil {
+			// if the invoice could not be read from the backend, nothing was settled yet.
+			// Unlock the proofs and set the quote back to unpaid, otherwise they
+			// would stay pending for a payment that will never exist.
+			if cashuErr, ok := err.(*cashu.Error); ok && cashuErr.Code == cashu.LightningBackendErrCode {
+				if err := m.db.RemovePendingProofs(Ys); err != nil {
+					m.logErrorf("could not remove pending proofs for quote '%v': %v", meltQuote.Id, err)
+				} else if err := m.db.UpdateMeltQuote(meltQuote.Id, "", nut05.Unpaid); err != nil {
+					m.logErrorf("could not set quote '%v' to unpaid: %v", meltQuote.Id, err)
+				}
+			}
 			return storage.MeltQuote{}, err
 		}
+		meltQuote = settledQuote
 		if err := m.settleProofs(Ys, proofs); err != nil {
 			return storage.MeltQuote{}, err
 		}
